@@ -90,7 +90,7 @@ EiOK(r) ==
       ok12(x) == Good(x, ETol)
       ok3(x) == GoodOrSkipped(x, E3Tol(r))
   IN /\ ok12(r.r[2]) /\ GoodOrSkipped(r.tr[2], ETol) /\ GoodOrSkipped(r.red, ETol) /\ r.cl[2] = 0
-     /\ (~div => ok12(r.r[1]) /\ ok12(r.r[3]) /\ r.cl[1] = 0 /\ r.cl[3] = 0)
+     /\ (~div => GoodOrSkipped(r.r[1], ETol) /\ GoodOrSkipped(r.r[3], ETol) /\ r.cl[1] = 0 /\ r.cl[3] = 0)
      /\ (~div => ok3(r.r[4]) /\ ok3(r.r[5]) /\ ok3(r.r[6]))
      /\ (~K1(r) => GoodOrSkipped(r.tr[1], ETol) /\ GoodOrSkipped(r.tr[3], ETol)
                     /\ ok3(r.tr[4]) /\ ok3(r.tr[5]) /\ ok3(r.tr[6]))
@@ -103,26 +103,26 @@ EiOK(r) ==
                  ELSE GoodOrSkipped(r.id[2], 2 * E3Tol(r)) /\ GoodOrSkipped(r.id[3], 2 * E3Tol(r)))
 
 \* Einv, deltaEinv, am, sn/cn/dn.  An inverse function is judged by the smaller of its forward and backward errors.
+AmTol(r) == IF r.kp2e >= -10 /\ r.k2e <= 3 THEN 2 * ETol ELSE Coarse
 EjOK(r) ==
   /\ r.iec = 0 /\ r.dec = 0
   /\ (Good(r.ieu, 2 * ETol) \/ Good(r.iep, 2 * ETol))
   /\ GoodOrSkipped(r.deu, 2 * ETol)
-  /\ (Good(r.amu, 2 * ETol) \/ Good(r.amp, 2 * ETol))
+  \* am near the singular modulus loses digits in the descending Landen recursion: coarse anchor there
+  /\ (Good(r.amu, AmTol(r)) \/ Good(r.amp, AmTol(r)))
   /\ r.ameq
   /\ \A i \in 1..3 : GoodOrSkipped(r.amj[i], ETol)
   /\ \A i \in 1..3 : GoodOrSkipped(r.snj[i], 2 * ETol)
   /\ \A i \in 4..5 : GoodOrSkipped(r.snj[i], ETol)
 
-\* Carlson.  ax: floor(log2) of the arguments (-9999: zero or absent).  Spread: exponent range of the non-zero
-\* arguments.  The 3-argument R_G and R_J lose accuracy when the arguments differ by many orders of magnitude
-\* (notes/C15.md); for them the definition is demanded on the moderate class, and only a finite positive value beyond.
-Spread(ax) == LET S == {ax[i] : i \in DOMAIN ax} \ {-9999}
-              IN (CHOOSE x \in S : \A y \in S : x >= y) - (CHOOSE x \in S : \A y \in S : x <= y)
-RcStrict(r) == r.fn \notin {3, 5} \/ Spread(r.ax) <= 6
+\* Carlson: finite positive value, the defining integral, and the structure laws (symmetry under permutation,
+\* homogeneity, duplication theorem, degenerate forms R_F(x,y,0), R_C = R_F(x,y,y), R_D = R_J(x,y,z,z)).
+\* ax: floor(log2) of the arguments (-9999: zero or absent); sp: their exponent range (used by the known-finding
+\* matcher: the 3-argument R_G and R_J lose accuracy for widely spread arguments, notes/C15.md).
 RcOK(r) ==
-  /\ r.v[1] = 1                                              \* finite and positive
-  /\ RcStrict(r) => /\ Good(r.rq, ETol)
-                    /\ \A i \in DOMAIN r.st : GoodOrSkipped(r.st[i], 2 * ETol)
+  /\ r.v[1] = 1
+  /\ Good(r.rq, ETol)
+  /\ \A i \in DOMAIN r.st : GoodOrSkipped(r.st[i], 2 * ETol)
 \* lattice line: documented domain, and the degenerate values stated exactly
 RcLatticeOK(r) ==
   LET x == <<r.par[1], r.par[2]>>  y == <<r.par[3], r.par[4]>>  z == <<r.par[5], r.par[6]>>  p == <<r.par[7], r.par[8]>>
